@@ -99,6 +99,26 @@ AREAS = {
                 'max_chunk_size in {0,1,2, small, 64, 65535-65537, 3 000 000, window sized}), window change; three quarters of the cases end with everything '
                 'arrived and three full rounds',
     },
+    'c03': {
+        'shrink_sep': ';', 'head_sep': ' | ', 'head_last': True,
+        'rule': 'whole chain in an isolated worker process (4 GiB address-space limit, 60 s limit): read (DltMessageIterator over LowMarkBufReader / asc / '
+                'logcat / generic-log converter by kind) -> header and payload text -> to_write -> EAC statistics -> argument iteration -> 6 filters -> '
+                'lifecycle detection -> listing -> all built-in plugins (NonVerbose, SomeIp, CAN, Muniic, Rewrite, FileTransfer, Anonymize; FIBEX/JSON from '
+                '/repo/tests) -> time sort -> stream filter. Inputs: slices of the repository example files and synthetic streams (verbose logs with all '
+                'argument types, GET_LOG_INFO / sw-version / unregister / connection / timezone responses with extreme counts and lengths, verbose control '
+                'messages, non-verbose, file-transfer announcements and packages with extreme sizes, SOME/IP plain and segmented, CAN-like frames; serial '
+                'framing; timestamps 0 / u32::MAX / beyond reception; grammar-based lines for .asc / logcat / generic log incl. non-ASCII digits and huge '
+                'numbers) under 0-4 corruptions: field-targeted overwrite at header / length / type-info / service-id offsets, truncation, deletion, '
+                'insertion, splicing, bit flips; non-trivial = at least one message was read',
+    },
+    'c03f': {
+        'shrink_sep': None,
+        'rule': 'function level: parse_ctrl_log_info_payload (status 2-8, structured bodies with 0-3 applications x 0-3 contexts, descriptions, extreme '
+                'counts / lengths, truncation, one corrupted byte), parse_ctrl_sw_version / unregister_context / connection_info / timezone payloads of '
+                'all lengths around the expected one, the verbose argument iterator on 0-5 (thorough 0-8) arguments of every type incl. VARI / FIXP / '
+                'unknown type infos with truncation and corruption, the non-verbose iterator on 0-8 bytes; both byte orders; result of the real function '
+                '(or PANIC) vs the checked Lean model',
+    },
     'cvt': {
         'shrink_sep': ';', 'head_sep': None, 'needs_bin': True,
         'rule': 'the `adlt convert` binary built from the working tree on 1-3 (thorough 1-4) generated DLT files (1-24 / 1-60 messages in total over '
@@ -203,6 +223,12 @@ PROPS = {
                      'Props.C16_lookup_first_not_before', 'Props.C16_any_schedule_invariant', 'Props.C16_settled_is_window',
                      'Props.C16_eventually_settles', 'Props.C16_consts'],
         'n_quick': [250, 3000], 'n_thorough': [4000, 150000], 'env': {'VERIF_JOBS': '16'},
+    },
+    'C03': {
+        'id': 'C03', 'area': ['c03', 'c03f'], 'inventory': True,
+        'theorems': ['Props.C03_ctrl_parsers_never_panic', 'Props.C03_arg_iteration_never_panics', 'Props.C03_nonverbose_first_arg_is_4_bytes',
+                     'Props.C03_lifecycle_never_stops'],
+        'n_quick': [4000, 6000], 'n_thorough': [400000, 300000], 'env': {'VERIF_JOBS': '16'},
     },
     'C14': {
         'id': 'C14', 'area': 'cvt',
